@@ -36,8 +36,8 @@ def cfg : Cfg :=
     powerNowFirst := Gen.C19.powerNowAlts == ["power_now", "current_now"]
     energyFullFirst := Gen.C19.energyFullAlts == ["energy_full", "charge_full"]
     ac0First := Gen.C19.onlineAlts == ["AC0/online", "AC/online"]
-    batPrefix := bytesOf Gen.C19.batPrefix
-    batInfix := bytesOf Gen.C19.batInfix }
+    batPrefix := Gen.C19.batPrefix
+    batInfix := Gen.C19.batInfix }
 
 /-- the file-name facts the model hard-codes (names of the alternatives, keys of /proc/stat);
     `cfg_good` in Props/C19.lean proves this of the generated facts -/
